@@ -26,6 +26,25 @@ var Root = func() string {
 	return "/verif"
 }()
 
+// Repo is the tree under test: /repo, or (VERIF_REPO) a snapshot of it used by background sweeps so
+// that they are not disturbed by seeded changes being applied to /repo. The check script writes an
+// alternative go.mod whose replace directive points there.
+var Repo = func() string {
+	if r := os.Getenv("VERIF_REPO"); r != "" {
+		return r
+	}
+	return "/repo"
+}()
+
+// GoEnv is the environment for go commands run by the machinery.
+func GoEnv() []string {
+	flags := "GOFLAGS=-mod=mod"
+	if Repo != "/repo" {
+		flags += " -modfile=" + filepath.Join(Root, ".cache", "alt", "go.mod")
+	}
+	return append(os.Environ(), flags, "GOPROXY=off")
+}
+
 type Finding struct {
 	Property  string `json:"property"`
 	Signature string `json:"signature"`
